@@ -121,7 +121,14 @@ fn view_ok(rec: &mut Rec, view: &[(Vec<bool>, Vec<u8>)], shadow: &HashMap<(u8, u
 }
 
 fn server_history(rec: &mut Rec, ctx: &Ctx, idx: u64, rng: &mut ChaCha20Rng) {
-  let all: Vec<u8> = (0..=255u8).collect();
+  let mut all: Vec<u8> = (0..=255u8).collect();
+  if idx % 2 == 1 {
+    // a tag list with repeated entries denotes the same set
+    for _ in 0..8 {
+      let d: u8 = rng.gen();
+      all.push(d);
+    }
+  }
   let server = match Server::new(all.clone()) {
     Ok(s) => s,
     Err(e) => {
@@ -159,6 +166,23 @@ fn server_history(rec: &mut Rec, ctx: &Ctx, idx: u64, rng: &mut ChaCha20Rng) {
     let live = node_view(&server);
     if !view_ok(rec, &live, &shadow, &p, "live-server", &hist) {
       return;
+    }
+    // the key holder itself: whatever else it keeps besides the tree, it must not
+    // be able to evaluate a punctured tag any more
+    if pos > 0 {
+      let mut probe: Vec<u8> = hist.iter().rev().take(3).cloned().collect();
+      probe.push(hist[rng.gen_range(0..hist.len())]);
+      for x in probe {
+        rec.ev("live_attacker_evaluations");
+        if server.eval(&pt, x, false).is_ok() {
+          rec.violation(
+            "key-holder-evaluates-punctured-tag",
+            format!("after puncturing tag {} the key holder still evaluates it: it retains material for that tag", x),
+            json!({"tag": x, "history": hist}),
+          );
+          return;
+        }
+      }
     }
     rec.evals += 1;
     rec.ev("exports");
